@@ -7,6 +7,7 @@ PROP = "C14"
 LEAN_MODULES = ["ShootVerif.Props.C14"]
 USES_FACTS = False
 DRIVER = "shootmodel_enum"
+enumgen.regen_enum_facts()          # lean/ShootVerif/Gen/EnumFacts.lean follows the current source (Props/C04Facts.lean)
 
 MANIFEST = dict(
     text="Lean 4 theorems on BitVec w for every width: Has after Add, not Has after Remove of a non-zero flag, both leave the bits outside the flag "
@@ -40,12 +41,14 @@ def make_cases(ctx, cid, en, mode=None):
         negs = sorted(set([-1, -2, lo, lo + 1, lo + 2, lo + 3, lo + top, lo | top, -top, -top - 1, -(top << 1)] + [-v for _, v in decl if v > 0]
                           + [v for _, v in decl if v < 0] + [v | w for _, v in decl if v < 0 for _, w in decl if w > 0]))
         negs = [v for v in negs if lo <= v < 0]
+    rerun = ctx.rng.random() < 0.35         # a second `enum -bit` run over the package that holds the first run's output
+    gx = [enumgen.generated_sexp(en, decl)] if rerun else []
     main = {"id": cid, "en": en, "decl": decl, "files": lay["files"], "mode": lay["mode"] + ("+spread" if lay["spread"] and lay["mode"].startswith("file") else ""),
-            "runs": [{"args": ["enum", "-bit"] + lay["sel"]}],
+            "runs": [{"args": ["enum", "-bit"] + lay["sel"]}] * (2 if rerun else 1), "rerun": rerun,
             "oracle": {".": enumgen.oracle_c14(en, decl, hi, negs)},
-            "sexp": enumgen.case_sexp(cid, "c14", en, [["hi", str(hi)], ["neg"] + [str(v) for v in negs]]), "cmd": "shoot enum -bit " + " ".join(lay["sel"]),
+            "sexp": enumgen.case_sexp(cid, "c14", en, gx + [["hi", str(hi)], ["neg"] + [str(v) for v in negs]]), "cmd": "shoot enum -bit " + " ".join(lay["sel"]),
             "hi": hi, "kind": "main"}
-    raw = {"id": cid + "r", "en": en, "decl": decl, "sexp": enumgen.case_sexp(cid + "r", "c14raw", en, []),
+    raw = {"id": cid + "r", "en": en, "decl": decl, "sexp": enumgen.case_sexp(cid + "r", "c14raw", en, gx),
            "cmd": "shoot enum -bit -type=%s && go build" % T, "kind": "raw"}
 
     def post(b, c, r):
@@ -88,10 +91,10 @@ def run_cases(ctx, pairs, name="mod"):
     impl = {}
     for main, raw in pairs:
         r = out[main["id"]]
-        rc = r["runs"][0]["rc"]
+        rc = enumgen.last_rc(r["runs"])
         rel, gen = enumgen.generated_file(r["written"])
         im = {"exit": str(rc)}
-        main["detail"] = {"stderr": r["runs"][0]["stderr"][-400:], "compile": r["compile"], "generated": rel}
+        main["detail"] = {"stderr": r["runs"][-1]["stderr"][-400:], "compile": r["compile"], "generated": rel}
         if rc == 0 and not rel:
             im["file"] = "none"
         elif rc == 0:
@@ -138,6 +141,7 @@ def run(ctx, obl):
             res.hist("requested-feature", main["en"].get("feature", "random"))
             res.hist("shape", main["en"].get("shape", "corpus"))
             res.hist("run-mode", main["mode"])
+            res.hist("rerun", str(main["rerun"]))
             vals = [v for _, v in main["decl"]]
             res.hist("flags", str(sum(1 for v in vals if v and v & (v - 1) == 0)))
             res.hist("composites", str(sum(1 for v in vals if v and v & (v - 1) != 0)))
@@ -160,7 +164,7 @@ def run(ctx, obl):
                 "bit-flag enums generated from the grammar (1-8 single-bit flags, contiguous `1 << iota` runs or scattered decimal/hex/shift "
                 "literals in any order, optional zero constant, 0-3 declared composites `A | B`, all 10 integer kinds, prefixed or plain names); "
                 "ONE `shoot enum -bit` run generates T alone (-type=T), after a companion type (-type=Comp,T), or by -file= (constants spread over several "
-                "files, optionally a companion declared first); the emitted file is compiled as it is (finding: undefined `_<t>_map`) and, with the defined table "
+                "files, optionally a companion declared first), in 35%% of the cases run a second time over the package that holds the first run's output; the emitted file is compiled as it is (finding: undefined `_<t>_map`) and, with the defined table "
                 "substituted, String() is executed for every value in [0, 2^(top+2)) (clipped to the type) and Has/Add/Remove for every pair of "
                 "such a value with every declared constant. non-trivial = distinct enum in WF; %d (value, flag) pairs executed" % npairs)
     res.exhaustive = True
